@@ -72,6 +72,11 @@ SITES = [
     dict(gen="FftMasks", name="unshiftedCoords", file=_MEA, func="DiffractionPatterns.angular_coordinates", select=("return", 1),
          params_map={"np.fft.ifftshift(alpha_x)": "ix", "np.fft.ifftshift(alpha_y)": "iy"}, params=["ix", "iy"],
          param_types={"ix": "List Rat", "iy": "List Rat"}, ret="List Rat × List Rat", modes=["rat"]),
+    # DiffractionPatterns._crop: un-shifted patterns are cropped in storage order, shifted ones between ifftshift / fftshift
+    dict(gen="FftMasks", name="cropDirectTest", file=_MEA, func="DiffractionPatterns._crop", select=("iftest", 0),
+         params_map={"fftshift": "shifted"}, params=["shifted"], param_types={"shifted": "Bool"}, ret="Bool", modes=["rat"]),
+    dict(gen="FftMasks", name="cropDirectReturn", file=_MEA, func="DiffractionPatterns._crop", select=("return", 0),
+         params_map={"fft_crop(array, new_shape=gpts)": "direct"}, params=["direct"], param_types={"direct": "List Int"}, ret="List Int", modes=["rat"]),
 ]
 FINGERPRINTS = {
     "_fft_interpolation_masks_1d": (_FFT, _M1D),
@@ -84,4 +89,6 @@ FINGERPRINTS = {
     "DiffractionPatterns.angular_coordinates": (_MEA, "DiffractionPatterns.angular_coordinates"),
     "DiffractionPatterns.block_direct": (_MEA, "DiffractionPatterns.block_direct"),
     "DiffractionPatterns._bandlimit": (_MEA, "DiffractionPatterns._bandlimit"),
+    "DiffractionPatterns._crop": (_MEA, "DiffractionPatterns._crop"),
+    "DiffractionPatterns.crop": (_MEA, "DiffractionPatterns.crop"),
 }
